@@ -17,7 +17,7 @@ PUNCT.sort(key=len, reverse=True)
 
 _ident = re.compile(r"[A-Za-z_][A-Za-z0-9_]*")
 _num = re.compile(r"[0-9][0-9A-Za-z_]*")
-_label = re.compile(r"//[ \t]*@[A-Za-z0-9_.:#\-]+")
+_label = re.compile(r"//[ \t]*@[A-Za-z0-9_.:#\-]+(?:[ \t]+@[A-Za-z0-9_.:#\-]+)*")
 
 
 class LexError(Exception):
